@@ -23,6 +23,9 @@ pub fn replay(input: &str, out: &mut Out) {
         let v = big(&c["v"]);
         let (a, b) = (c["a"].as_u64().unwrap(), c["b"].as_u64().unwrap());
         let r = guarded(|| -> Result<(), String> {
+            if matches!(k, "tint" | "tbool" | "tenum") {
+                return typed(k, v, a, b, &exp);
+            }
             let mut w: Vec<u8> = Vec::new();
             // ---- write
             let wr = match k {
@@ -82,6 +85,68 @@ pub fn replay(input: &str, out: &mut Out) {
         }
     }
     out.line(&json!({"summary": true, "cases": n, "mismatches": bad}));
+}
+
+/// The typed layer: BasicWriter / BasicReader for INTEGER, BOOLEAN and ENUMERATED (root-only and extensible item lists).
+fn typed(k: &str, v: i128, a: u64, b: u64, exp: &[u8]) -> Result<(), String> {
+    use asn1rs::descriptor::{boolean, numbers, Reader, Writer};
+    use asn1rs::protocol::basic::DER;
+    let mut bytes = exp.to_vec();
+    bytes.push(0x5A);
+    let check = |w: Vec<u8>| if w != exp { Err(format!("typed writer emitted {:02x?}, Der.tla says {:02x?}", w, exp)) } else { Ok(()) };
+    let rest = |r: &[u8]| if r != [0x5A] { Err(format!("typed reader left {} octets, 1 expected", r.len())) } else { Ok(()) };
+    match k {
+        "tint" => {
+            let mut w = DER::writer(Vec::new());
+            w.write_number::<i64, numbers::NoConstraint>(v as i64).map_err(|e| format!("typed writer failed: {:?}", e))?;
+            check(w.into_inner())?;
+            let mut r = DER::reader(&bytes[..]);
+            let x = r.read_number::<i64, numbers::NoConstraint>().map_err(|e| format!("typed reader failed: {:?}", e))?;
+            if x as i128 != v {
+                return Err(format!("typed reader returned {}", x));
+            }
+            rest(r.into_inner())
+        }
+        "tbool" => {
+            let mut w = DER::writer(Vec::new());
+            w.write_boolean::<boolean::NoConstraint>(a != 0).map_err(|e| format!("typed writer failed: {:?}", e))?;
+            check(w.into_inner())?;
+            let mut r = DER::reader(&bytes[..]);
+            let x = r.read_boolean::<boolean::NoConstraint>().map_err(|e| format!("typed reader failed: {:?}", e))?;
+            if x != (a != 0) {
+                return Err(format!("typed reader returned {}", x));
+            }
+            rest(r.into_inner())
+        }
+        _ => {
+            // a = root items, b = all items; (3, 3) is Colour, (2, 4) is the extensible Shade
+            let valid = (v as u64) < b;
+            fn go<C: asn1rs::descriptor::enumerated::Constraint>(
+                v: u64, valid: bool, exp: &[u8], bytes: &[u8], check: &dyn Fn(Vec<u8>) -> Result<(), String>, rest: &dyn Fn(&[u8]) -> Result<(), String>,
+            ) -> Result<(), String> {
+                use asn1rs::descriptor::{Reader, Writer};
+                use asn1rs::protocol::basic::DER;
+                if let Some(x) = C::from_choice_index(v) {
+                    let mut w = DER::writer(Vec::new());
+                    w.write_enumerated(&x).map_err(|e| format!("typed writer failed: {:?}", e))?;
+                    check(w.into_inner())?;
+                }
+                let _ = exp;
+                let mut r = DER::reader(bytes);
+                match (r.read_enumerated::<C>(), valid) {
+                    (Ok(x), true) if x.to_choice_index() == v => rest(r.into_inner()),
+                    (Ok(x), _) => Err(format!("typed reader returned item {} for index {}", x.to_choice_index(), v)),
+                    (Err(e), true) => Err(format!("typed reader refused item {} of {}: {:?}", v, C::VARIANT_COUNT, e)),
+                    (Err(_), false) => Ok(()),
+                }
+            }
+            if (a, b) == (3, 3) {
+                go::<Colour>(v as u64, valid, exp, &bytes, &check, &rest)
+            } else {
+                go::<Shade>(v as u64, valid, exp, &bytes, &check, &rest)
+            }
+        }
+    }
 }
 
 // ------------------------------------------------------------------------------------------------
@@ -211,6 +276,29 @@ impl asn1rs::descriptor::enumerated::Constraint for Colour {
             1 => Some(Colour::Green),
             2 => Some(Colour::Blue),
             _ => None,
+        }
+    }
+}
+
+/// ENUMERATED { a, b, ..., c, d }
+#[derive(Debug, PartialEq)]
+struct Shade(u64);
+impl asn1rs::descriptor::common::Constraint for Shade {
+    const TAG: Tag = Tag::DEFAULT_ENUMERATED;
+}
+impl asn1rs::descriptor::enumerated::Constraint for Shade {
+    const NAME: &'static str = "Shade";
+    const VARIANT_COUNT: u64 = 4;
+    const STD_VARIANT_COUNT: u64 = 2;
+    const EXTENSIBLE: bool = true;
+    fn to_choice_index(&self) -> u64 {
+        self.0
+    }
+    fn from_choice_index(index: u64) -> Option<Self> {
+        if index < 4 {
+            Some(Shade(index))
+        } else {
+            None
         }
     }
 }
